@@ -1,7 +1,7 @@
 """C11 - port-ID and minor-version consistency rules hold for every set of definitions.
 
 TLC: CrossDef.tla - LoopsDecideTheRules: the pairwise loops of the implementation decide exactly the declarative rules
-of the statement, for every pair (and sampled triples) of definitions over names x majors {0,1,2} x minors x kinds x
+of the statement, for every pair, every chain of 3 / 4 minor versions under one major (and sampled mixed triples) of definitions over names x majors {0,1,2} x minors x kinds x
 ports {none, 0, 5} x sealing x size classes (request and response separately for services).
 Binding A: every set is materialised in one namespace (file names carry port and version, bodies carry sealing /
 extent, `---` for services) and read with read_namespace; accept / reject (InvalidDefinitionError) is compared.
@@ -97,14 +97,17 @@ def scope_worker(arg):
 def run(ctx):
     ctx.rule = ("TLC enumerates every pair {A.M.0, N.M'.m'} (N in A,B; M, M' in 0..2; m' in 0,1) x attribute combinations "
                 "(message / service, port none / 0 / 5, sealed or delimited, two size classes, response equal / flipped "
-                "sealing / other size) and (thorough) triples; each set is materialised in one namespace and read; accepted "
+                "sealing / other size), every chain of three (thorough: four) minor versions A.M.1 .. A.M.3 under one major "
+                "version over kind x port x sealing x size, and (thorough) sampled mixed triples; each set is materialised in one namespace and read; accepted "
                 "vs rejected-with-InvalidDefinitionError is compared with the declarative rules. Every case is non-trivial "
                 "(two definitions interact or not); distinct by hash of the set")
     ctx.assumptions = ["TLC's evaluation of the specification", "violations located in lookup namespaces are covered by four "
                        "fixed scope cases, not enumerated"]
     quick = ctx.tier == "quick"
     c02.run_cfg(ctx, "CrossDef", "CrossDef_pairs.cfg", worker, "pairs", mk=lambda blocks: [(b, ctx.seed, 1) for b in blocks])
+    c02.run_cfg(ctx, "CrossDef", "CrossDef_chain3.cfg", worker, "chain3", mk=lambda blocks: [(b, ctx.seed, 1) for b in blocks])
     if not quick:
+        c02.run_cfg(ctx, "CrossDef", "CrossDef_chain4.cfg", worker, "chain4", mk=lambda blocks: [(b, ctx.seed, 1) for b in blocks])
         c02.run_cfg(ctx, "CrossDef", "CrossDef_triples.cfg", worker, "triples", mk=lambda blocks: [(b, ctx.seed, 60) for b in blocks])
         ctx.exhaustive = False
     c02.consume(ctx, core.pmap(scope_worker, [0], procs=1), "scope")
